@@ -4,6 +4,9 @@
 // duplicate constant cases, so one literal selects the clause), a select on a Done channel gives the literal ctxDone.
 // Expressions and statements are mapped to the constructors of CV.C05.T.Atom / Act through the small per-function vocabularies
 // below; anything else becomes `.unknown` (fail-closed: the theorems over the table fail). Logging, tracing and mutex calls are dropped.
+// Round 8c: also the tracker's entry points `enqueue` (nil = ongoing / channel by type / non-blocking send or ErrFullQueue + SetError + Cancel),
+// `Track` (meta / remote-synchronous / local), `Untrack`, `Recover`; a select of one communication + default is read as the literal
+// "communication ready" (a send is also an action).
 // Standard output is the Lean file.
 package main
 
@@ -71,6 +74,7 @@ func mk(atoms, acts map[string]string, ignore ...string) *vocab {
 	}
 	for k, c := range types {
 		v.atoms["typ == "+k] = ".typIs " + c
+		v.atoms["typ == optracker."+k] = ".typIs " + c
 	}
 	if _, ok := v.acts["return"]; !ok {
 		v.acts["return"] = ".retVoid"
@@ -244,18 +248,29 @@ func (v *vocab) one(s ast.Stmt, p path) []path {
 		}
 		return out
 	case *ast.SelectStmt:
-		var out []path
+		// exactly one communication + default: the literal is "the communication is ready"; a send is also an action.
+		// (round 8c: the non-blocking send of `enqueue`; before, only `<-op.ctx.Done()` was read.)
+		var comm, def *ast.CommClause
 		for _, c := range x.Body.List {
 			cc := c.(*ast.CommClause)
-			switch {
-			case cc.Comm == nil:
-				out = append(out, v.stmts(cc.Body, []path{v.withLits(p, []lit{{"<-op.ctx.Done()", false}})})...)
-			case skel.Src(cc.Comm) == "<-op.ctx.Done()":
-				out = append(out, v.stmts(cc.Body, []path{v.withLits(p, []lit{{"<-op.ctx.Done()", true}})})...)
-			default:
-				out = append(out, v.act(p, "select "+skel.Src(cc.Comm)))
+			if cc.Comm == nil {
+				def = cc
+			} else if comm == nil {
+				comm = cc
+			} else {
+				return []path{v.act(p, "select with several communications")}
 			}
 		}
+		if comm == nil || def == nil {
+			return []path{v.act(p, "select without default")}
+		}
+		a := skel.Src(comm.Comm)
+		yes := v.withLits(p, []lit{{a, true}})
+		if _, send := comm.Comm.(*ast.SendStmt); send {
+			yes = v.act(yes, "select "+a)
+		}
+		out := v.stmts(comm.Body, []path{yes})
+		out = append(out, v.stmts(def.Body, []path{v.withLits(p, []lit{{a, false}})})...)
 		return out
 	}
 	return []path{v.act(p, skel.Src(s))}
@@ -342,6 +357,29 @@ func main() {
 			"pin = statePin": ".pinRecorded", "err = spt.enqueue(ctx, pin, optracker.OperationPin)": ".enqueuePin",
 			"err = spt.enqueue(ctx, api.PinCid(pi.Cid), optracker.OperationUnpin)": ".enqueueUnpin",
 			"return spt.Status(ctx, pi.Cid), err": ".retStatusErr", "return spt.Status(ctx, pi.Cid), nil": ".retNil",
+		}))
+	// round 8c: the entry points of the tracker
+	table(&b, "enqueue", "Tracker.enqueue", st, "*Tracker", "enqueue", mk(
+		map[string]string{"op == nil": ".opNil", "ch <- op": ".sendOk"},
+		map[string]string{
+			"op := spt.optracker.TrackNewOperation(ctx, c, typ, optracker.PhaseQueued)": ".trackNewQ", "return nil": ".retNil",
+			"var ch chan *optracker.Operation": "", "ch = spt.pinCh": ".chPin", "ch = spt.unpinCh": ".chUnpin", "select ch <- op": ".send",
+			"err := ErrFullQueue": ".errFull", "op.SetError(err)": ".setError", "op.Cancel()": ".cancel", "return err": ".retErr",
+		}))
+	table(&b, "track", "Tracker.Track", st, "*Tracker", "Track", mk(
+		map[string]string{"c.Type == api.MetaType": ".isMeta", "c.IsRemotePin(spt.peerID)": ".isRemote", "op == nil": ".opNil", "err == nil": ".errNil"},
+		map[string]string{
+			"op := spt.optracker.TrackNewOperation(ctx, c, optracker.OperationRemote, optracker.PhaseInProgress)": ".trackNewRemote",
+			"return nil": ".retNil", "err := spt.unpin(op)": ".call", "op.Cancel()": ".cancel", "op.SetError(err)": ".setError",
+			"spt.optracker.Clean(ctx, op)": ".clean", "return spt.enqueue(ctx, c, optracker.OperationPin)": ".retEnqueuePin",
+		}))
+	table(&b, "untrack", "Tracker.Untrack", st, "*Tracker", "Untrack", mk(nil,
+		map[string]string{"return spt.enqueue(ctx, api.PinCid(c), optracker.OperationUnpin)": ".retEnqueueUnpinCid"}))
+	table(&b, "recover", "Tracker.Recover", st, "*Tracker", "Recover", mk(
+		map[string]string{"ok": ".found"},
+		map[string]string{
+			"pi, ok := spt.optracker.GetExists(ctx, c)": ".getExists", "return spt.recoverWithPinInfo(ctx, pi)": ".retRecOp",
+			"return spt.recoverWithPinInfo(ctx, spt.Status(ctx, c))": ".retRecStatus",
 		}))
 	consts(&b, "phaseConsts", op, "Phase")
 	consts(&b, "typeConsts", op, "OperationType")
